@@ -859,7 +859,9 @@ def ob_load_base_dir(env, maxlen):
         d = zstr(sym_dirname(SStr(p)))
         want = z3.If(z3.Length(d) == 0, z3.StringVal("."), d)
         rel = z3.Not(z3.PrefixOf(z3.StringVal("/"), p))
-        prefer = [[rel, z3.PrefixOf(z3.StringVal("a/../"), p)], [rel, z3.Contains(p, z3.StringVal("a/../"))], [rel, z3.Contains(p, z3.StringVal(".."))], [rel]]
+        base_ = z3.SuffixOf(z3.StringVal("/_"), p)     # a file name that cannot collide with a directory component of the witness
+        prefer = [[rel, base_, z3.PrefixOf(z3.StringVal("a/../"), p)], [rel, base_, z3.Contains(p, z3.StringVal("a/../"))], [rel, base_, z3.Contains(p, z3.StringVal(".."))],
+                  [rel, z3.PrefixOf(z3.StringVal("a/../"), p)], [rel, z3.Contains(p, z3.StringVal("a/../"))], [rel, z3.Contains(p, z3.StringVal(".."))], [rel]]
         return z3.And(*[z3.And(z3.Length(zstr(bd)) > 0, zstr(bd) == want) for bd in dirs]), dict(prefer=prefer)
 
     # relative spellings first (they are the ones a user types), then absolute ones
